@@ -241,8 +241,99 @@ def r26_cid_sanitiser(ctx):
         elif isinstance(v, ast.Subscript) and unparse(v.value) == 'self._nickCid':
             ok, how = True, 'a value of self._nickCid (validated where it is stored)'
         ctx.check(ok, R, r, g, 'getCid returns only IDs in 1..nCand', how, 'getCid can return `%s` without the range test' % unparse(v) if v else 'None')
-    # the int branch must require an int: isinstance(nick, int) guards the range test
+    _sets_only_grow(ctx, R, funcs)
+    _tables_complete(ctx, R, funcs)
     return n
+
+
+def _sets_only_grow(ctx, R, funcs):
+    """self.withdrawn / self.undeclared / self.eligible are re-bound only by __init__ and by the reset in _bltParse that
+    precedes every option and withdrawal; an option handler that assigns the set forgets earlier withdrawals"""
+    repo = ctx.repo
+    for f in funcs.values():
+        for n in f.own_nodes():
+            if isinstance(n, (ast.Assign, ast.AugAssign)):
+                tgs = n.targets if isinstance(n, ast.Assign) else [n.target]
+                for t in tgs:
+                    if isinstance(t, ast.Attribute) and isinstance(t.value, ast.Name) and t.value.id == 'self' \
+                            and t.attr in ('withdrawn', 'undeclared', 'eligible'):
+                        what = 'the withdrawn/undeclared/eligible sets only grow while the file is read'
+                        if f.name == '__init__':
+                            ctx.ok(R, n, f, what, 'initialisation in ElectionProfile.__init__', nontrivial=False)
+                            continue
+                        empty = isinstance(n, ast.Assign) and unparse(n.value) in ('set()', 'set([])')
+                        ok = False
+                        if empty and f.name == '_bltParse':
+                            cfg = cfg_of(f)
+                            rn = cfg.of_stmt[n]
+                            users = {x for x in cfg.stmt_nodes() if x is not rn and any(
+                                (isinstance(c.func, ast.Attribute) and c.func.attr == 'add' and unparse(c.func.value) == 'self.' + t.attr)
+                                or unparse(c.func).startswith(('self.__bltOption', 'self._ElectionProfile__bltOption')) for c in calls_at(x))}
+                            ok = all(cfg.dominates(rn, u) for u in users) and rn not in cfg.reach([rn])
+                        ctx.check(ok, R, n, f, what, 'empty-set reset that dominates every option and withdrawal, executed once',
+                                  '`%s` in %s re-binds the set: candidates recorded earlier in the header are forgotten' % (stmt_text(n), f.qualname))
+
+
+def _tables_complete(ctx, R, funcs):
+    """every per-candidate table that Election.__init__ indexes by candidate id has an entry for each of 1..nCand"""
+    repo = ctx.repo
+    cls = repo.cls(PROFILE)
+    ei = repo.func('droop.election.Election.__init__')
+    tables = set()
+    for n in ei.own_nodes():
+        if isinstance(n, ast.Subscript) and isinstance(n.ctx, ast.Load) and isinstance(n.value, ast.Attribute) \
+                and isinstance(n.value.value, ast.Name) and n.value.value.id == 'electionProfile':
+            tables.add(n.value.attr)
+    need(tables, 'R26: Election.__init__ indexes no profile table')
+    pinit = cls.methods['__init__']
+    for T in sorted(tables):
+        what = 'profile.%s has an entry for every candidate 1..nCand (Election.__init__ indexes it by candidate id)' % T
+        proofs = []
+        problems = []
+        for f in funcs.values():
+            stores = [x for x in f.own_nodes() if isinstance(x, ast.Subscript) and isinstance(x.ctx, ast.Store) and unparse(x.value) == 'self.' + T]
+            rebinds = [x for x in f.own_nodes() if isinstance(x, ast.Assign) and unparse(x.targets[0]) == 'self.' + T]
+            if not stores:
+                continue
+            cfg = cfg_of(f)
+            for st in stores:
+                stmt = repo.enclosing_stmt(st)
+                loop = stmt.parent
+                while loop is not None and not isinstance(loop, (ast.For, ast.FunctionDef)):
+                    loop = loop.parent
+                if isinstance(loop, ast.For) and _is_ncand_range(loop.iter) and unparse(st.slice) == unparse(loop.target):
+                    # unconditional in the loop body (every completing iteration stores)
+                    ln = cfg.of_stmt[loop]
+                    sn = cfg.of_stmt[stmt]
+                    body_entry = [t for t, lab in ln.succ if lab is True]
+                    if ln not in cfg.reach(body_entry, avoid=[sn], include_start=True):
+                        proofs.append('%s: stored for every cid in range(1, nCand+1)' % f.name)
+                        continue
+                    problems.append('%s: store at line %d can be skipped inside the 1..nCand loop' % (f.name, st.lineno))
+                    continue
+                # an option handler: keys come from a list; completeness needs a count check
+                # (a) counter keys 1..len(list) with len(list) == nCand enforced (the nick idiom, R26 checks the bound)
+                key = st.slice
+                if isinstance(key, ast.Name):
+                    rd = reaching_defs(cfg, key.id, cfg.of_stmt[stmt])
+                    if rd and all(d is not cfg.entry and isinstance(d.ast, ast.AugAssign) for d in rd) and \
+                            any(isinstance(x, ast.If) and unparse(x.test).startswith('len(') and unparse(x.test).endswith('!= self.nCand')
+                                and x.body and isinstance(x.body[0], ast.Raise) for x in f.own_nodes()):
+                        proofs.append('%s: keys are the counter 1..len(list) and len(list) == nCand is enforced' % f.name)
+                        continue
+                # (b) validated ids (possibly repeated): the number of DISTINCT keys must be checked after filling
+                checks = [x for x in f.own_nodes() if isinstance(x, ast.If) and x.body and isinstance(x.body[0], ast.Raise)
+                          and unparse(x.test) == 'len(self.%s) != self.nCand' % T]
+                sn = cfg.of_stmt[stmt]
+                if checks and all(cfg.exit not in cfg.reach([sn], avoid=[cfg.of_stmt[c] for c in checks]) for c in checks[:1]):
+                    proofs.append('%s: after filling, `len(self.%s) != self.nCand` raises (all keys are valid ids, so nCand distinct keys '
+                                  'means every candidate is listed)' % (f.name, T))
+                    continue
+                problems.append('%s: keys of self.%s come from the file and nothing checks afterwards that every candidate 1..nCand is '
+                                'listed (a repeated id leaves another candidate without an entry: KeyError in Election.__init__)' % (f.name, T))
+        ctx.check(bool(proofs) and not problems, R, pinit.node if not problems else cls.node, cls.qualname, what,
+                  '; '.join(proofs), '; '.join(problems) or 'no store into self.%s found' % T)
+
 
 
 # ---------------------------------------------------------------------------
@@ -451,6 +542,18 @@ def r29_ballot_count_pairing(ctx):
             how = 'appended under `%s`' % (unparse(par.test) if isinstance(par, ast.If) else '?')
         ctx.check(ok, R, c, p, 'a parsed line is kept exactly when its ranking survived the strip', how,
                   '%s.append is not guarded by the ranking test' % tgt)
+    # the ballot total and the multipliers have no other writer
+    for fq, g in ctx.repo.funcs.items():
+        for n in g.own_nodes():
+            if isinstance(n, ast.Attribute) and isinstance(n.ctx, (ast.Store, ast.Del)) and n.attr in ('nBallots', 'multiplier'):
+                if n.attr == 'nBallots':
+                    okw = fq in (PROFILE + '.BallotLine.__init__', PROFILE + '.__init__')
+                else:
+                    okw = fq in (PROFILE + '.BallotLine.__init__', 'droop.election.Election.Ballot.__init__')
+                ctx.check(okw, R, n, g, 'the ballot total and the line multipliers are written only when a ballot line is constructed',
+                          'store to .%s inside %s' % (n.attr, fq.split('.')[-2] + '.' + fq.split('.')[-1]),
+                          'store to .%s in %s: the ballot total / a line multiplier is changed outside BallotLine.__init__, where kept and '
+                          'dropped lines are told apart' % (n.attr, fq), nontrivial=False)
     # no other writer of the two lists
     for fq, g in ctx.repo.funcs.items():
         for n in g.own_nodes():
@@ -665,6 +768,12 @@ def r31_exception_escape(ctx):
             if isinstance(node, ast.Call) and isinstance(node.func, ast.Name) and node.func.id == 'next':
                 n += 1
                 d = discharged('StopIteration', node)
+                is_gen = any(isinstance(y, (ast.Yield, ast.YieldFrom)) for y in f.own_nodes())
+                if is_gen and 'StopIteration' not in _handlers_covering(ctx, f, node):
+                    ctx.bad(R, node, f, 'next() at end of input ends in the profile error',
+                            'next() inside the generator %s: a StopIteration raised in a generator body becomes RuntimeError (PEP 479), '
+                            'which nothing converts to the profile error' % f.name)
+                    continue
                 ctx.check(d is not None, R, node, f, 'next() at end of input ends in the profile error', d,
                           'StopIteration from next() is not handled on this path')
             # (b) int()
